@@ -236,8 +236,9 @@ var props = []propCfg{
 		ID: "C07", Pkg: "props/c07", Needs: []string{"fc"},
 		Tests: []testCfg{
 			{Name: "TestHistories", Rapid: true, Quick: 800, Thorough: 24000, ShardsQ: 16, ShardsT: 16},
+			{Name: "TestSharedFieldRecords", Rapid: true, Quick: 800, Thorough: 16000, ShardsQ: 16, ShardsT: 16},
 		},
-		Rule:      "a generated program (full profile, 1..4 units) is a sequence of top-level items (type declarations, prelude functions, helper/entry functions, main) with a reference relation computed from the identifiers each item mentions. rapid draws a history transformation: delete a random set of items nothing kept refers to; emit the kept items in a different topological order; merge in the items of an independently generated unrelated program (own types, matches, lambdas, _.Field, disjoint names) at random positions; cut the sequence into 2..4 files placed in different directories and passed to one fc invocation in order, a cut consisting only of type declarations optionally becoming a .foi file. Oracle: both runs exit 0; the files written are exactly gen_<base>.go next to each .fo argument and nothing for .foi; every Go declaration (func, type, var, method; found with go/parser) that occurs in both runs is identical after renaming compiler temporaries _vN per declared object (parser scope resolution) in order of first occurrence. Non-trivial = a non-identity transformation with at least one kept function that contains a match, a _.Field shorthand or a generic instantiation; distinct = hash of the case.",
+		Rule:      "a generated program (full profile, 1..4 units) is a sequence of top-level items (type declarations, prelude functions, helper/entry functions, main) with a reference relation computed from the identifiers each item mentions. rapid draws a history transformation: delete a random set of items nothing kept refers to; emit the kept items in a different topological order; merge in the items of an independently generated unrelated program (own types, matches, lambdas, _.Field, disjoint names) at random positions; cut the sequence into 2..4 files placed in different directories and passed to one fc invocation in order, a cut consisting only of type declarations optionally becoming a .foi file. Oracle: both runs exit 0; the files written are exactly gen_<base>.go next to each .fo argument and nothing for .foi; every Go declaration (func, type, var, method; found with go/parser) that occurs in both runs is identical after renaming compiler temporaries _vN per declared object (parser scope resolution) in order of first occurrence. Non-trivial = a non-identity transformation with at least one kept function that contains a match, a _.Field shorthand or a generic instantiation; distinct = hash of the case. TestSharedFieldRecords aims the same transformations and oracle at the state fc keeps longest, the lookup of a record by its field names: small programs with 1..2 field-name sets, 2..3 records per set (names drawn so that a later one may sort before an earlier one) declared at random places among 2..5 functions per set that return / bind / compare unqualified literals (fields in any order), read fields through a parameter annotated with one of the records, or write a qualified literal; every function is unreferenced, so any subset can be deleted (non-trivial = non-identity transformation).",
 		Technique: "metamorphic property-based testing (rapid) over definition histories: transformations of the top-level item sequence must leave each surviving definition's Go unchanged",
 		Assumptions: []string{
 			"later files see earlier files' definitions; files are passed in dependency order",
